@@ -827,7 +827,7 @@ func ctSweepReload() []*ctHist {
 	// reloads that change ONLY firewall.default_local_cidr_any (rule lists byte-identical, same rule hash): node with an
 	// unsafe network, inbound rule without local_cidr, a tracked flow to an unsafe-network local address (u) and one to
 	// our own address (f); true -> false refuses new u flows, so the tracked u must be cut and f kept; false -> true
-	for _, v0 := range []uint16{0, 9, 65533} {
+	for _, v0 := range []uint16{0, 9, 40000} {
 		for _, from := range []bool{true, false} {
 			for _, un := range []int{1, 2} {
 				h := &ctHist{kind: fmt.Sprintf("sweep/dlca-only/%v/u%d/v%d", from, un, v0), rulesets: rulesets, to0: to, v0: v0, unsafe0: un, dlca0: from}
@@ -841,7 +841,7 @@ func ctSweepReload() []*ctHist {
 		}
 	}
 	// the unsafe networks of our certificate change and nothing else (a certificate reload): 1 <-> 2, flows to both networks
-	for _, v0 := range []uint16{0, 65533} {
+	for _, v0 := range []uint16{0, 65000} {
 		u9 := u
 		u9.local = netip.MustParseAddr("192.168.9.7")
 		h := &ctHist{kind: fmt.Sprintf("sweep/unsafe-only/v%d", v0), rulesets: rulesets, to0: to, v0: v0, unsafe0: 2, dlca0: true}
